@@ -37,8 +37,12 @@ Inv_Closed == Unesc(s).ok => AllClosed(s, 0)
 \* unescaping is stable: escaping the result and unescaping again gives the same result
 Inv_Stable == Unesc(s).ok => Unesc(Esc(Unesc(s).out, "full")).out = Unesc(s).out
 
+\* a custom resolver changes nothing for strings without its names, and its replacement is never scanned again
+Inv_Custom == (Unesc(s).ok => UnescCustom(s).ok) /\ (UnescCustom(s).ok /\ ~Unesc(s).ok => \E i \in 1..Len(s) : s[i] = 97)
+
 Inv_Emit ==
     Emit => PrintT(<<"REPLAY", ToJson([s |-> s, full |-> Esc(s, "full"), partial |-> Esc(s, "partial"),
                                        minimal |-> Esc(s, "minimal"),
-                                       ok |-> IF Unesc(s).ok THEN 1 ELSE 0, out |-> Unesc(s).out, e |-> Unesc(s).e])>>)
+                                       ok |-> IF Unesc(s).ok THEN 1 ELSE 0, out |-> Unesc(s).out, e |-> Unesc(s).e,
+                                       okx |-> IF UnescCustom(s).ok THEN 1 ELSE 0, outx |-> UnescCustom(s).out])>>)
 =============================================================================
